@@ -332,6 +332,14 @@ def run(ctx):
             ctx.note("whole runs of this seed: %s = 0 - the corresponding whole-run oracle was not exercised "
                      "(the unit and shared-component stages cover the clause)" % k)
     ctx.extra["wholerun_evidence"] = {k: v for k, v in sorted(ctx.counts.items()) if k.startswith("wholerun_")}
+    _end_arg_problem(ctx)
+
+
+def _end_arg_problem(ctx):
+    from harness.adapters import emission as E
+
+    for msg in E.END_ARG_PROBLEM:
+        ctx.broke("correspondence: summary end-date argument", msg)
 
 
 def replay(ctx, data):
